@@ -1,4 +1,5 @@
 import Rain.DbIter
+import Rain.Concat
 import Driver.TableCmd
 namespace Rain.Driver
 open Rain Rain.Lsm Rain.Table Rain.Merge Rain.DbIter
@@ -33,7 +34,26 @@ def runDb {σ} (I : Inner σ) (snap fuel : Nat) : DState σ → List UOp → Lis
       | none => "-"
     runDb I snap fuel s' ops (out :: acc)
 
+def runLevel (files : List (List Entry)) : TL → List COp → List String → List String
+  | _, [], acc => acc.reverse
+  | s, op :: ops, acc =>
+    let s' := Rain.Concat.step files s op
+    let out := if s'.valid (Rain.Concat.mkLevel files) then
+        match s'.current (Rain.Concat.mkLevel files) with
+        | some e => showEntry e
+        | none => "-"
+      else "-"
+    runLevel files s' ops (out :: acc)
+
+/-
+`level.run <files> <program>`: the model of `FilesEntryIterator` (`Rain.Concat.step`) over the files
+(entry lists joined by `;`, as the children of `merge.run`), one output per operation.
+-/
 def iterCmd : List String → Option String
+  | ["level.run", fs, prog] =>
+    match parseChildren fs, (prog.splitOn ",").mapM parseOp with
+    | some files, some ops => some (" ".intercalate (runLevel files (Rain.Concat.init files) ops []))
+    | _, _ => none
   | ["merge.run", ch, prog] =>
     match parseChildren ch, (prog.splitOn ",").mapM parseOp with
     | some children, some ops => some (" ".intercalate (runMerge children (MState.init children) ops []))
